@@ -103,7 +103,8 @@ def errorCodeAddTo (m : Msg) (code : Nat) (reason : Bytes) : Msg × Option SetEr
     let cls := UInt8.ofNat (code / errorCodeModulo)
     (m.add attrErrorCode ([0, 0, cls, number] ++ reason), none)
 
-def str (s : String) : Bytes := s.toUTF8.toList
+/-- ASCII string literal as bytes (kernel-reducible form) -/
+def str (s : String) : Bytes := s.toList.map (fun c => UInt8.ofNat c.toNat)
 
 /-- errorcode.go `errorReasons` -/
 def errorReasons : List (Nat × Bytes) :=
